@@ -466,10 +466,16 @@ def check(pid, tier, seed):
         rm, recsm, _ = export("MC_Merge", {"MaxLen": 2, "Export": "TRUE", "Hdr": "FALSE"}, ["MergeIsRef"], seed=seed)
         nmerge = p_merge.inputs_unchanged(exe, [(x["b"], x["o"]) for x in recsm], verdict, "C10")
         acc += nmerge
+        # read-only calls inside mixed histories against the root specification: merges (also with a tag-less option object as
+        # base and a parsed file with comments as override), writes, listings, the extended getter; every dump compares
+        # content AND the delimiter / comment tags
+        from . import p_econf
+        nmix = 200 if tier == "quick" else 4000
+        acc += p_econf.run_mixed(exe, random.Random(seed + 10), nmix, verdict, "C10")
         nq = sum(1 for h in hists for l in h.script if l.split()[0] in ("get", "getdef", "keys", "groups", "ext", "path", "tags", "write", "merge"))
         cov = {"states": mc.distinct, "transitions": mc.generated, "traces_validated_against_impl": acc,
                "evaluations": nq, "distinct_nontrivial": sum(1 for h in hists if any(l.startswith("get Bool") or l.startswith("getdef Bool") or l.startswith("get Int") for l in h.script)),
-               "rule": "%d random query sequences (3..30 calls) on parsed and built objects holding mixed-case / non-boolean / numeric / empty / absent values: getters of all 8 types with and without default (incl. failing ones), key and section listings, extended getter, path, tags, econf_writeFile, use as either input of econf_mergeFiles; after EVERY call the object is dumped in full (listing, values as stored, comments, line numbers, value lists, bytes of a fresh write); Trace_KeyFile accepts a query only if listing and full-dump fingerprint are unchanged since the last setter. In the model queries are UNCHANGED objs by construction (KeyFile.tla); %d query calls validated. Merge as a query, systematically: %d pairs of parsed files (every pair of entry lists of length <= 2 over {group-less,A,B} x {x,y} exported by TLC from MC_Merge, first key of the file / of each section without a value): the extended dump of both inputs is identical before and after econf_mergeFiles. non-trivial = sequence with a Bool or Int getter." % (len(hists), nq, nmerge),
+               "rule": "%d random query sequences (3..30 calls) on parsed and built objects holding mixed-case / non-boolean / numeric / empty / absent values: getters of all 8 types with and without default (incl. failing ones), key and section listings, extended getter, path, tags, econf_writeFile, use as either input of econf_mergeFiles; after EVERY call the object is dumped in full (listing, values as stored, comments, line numbers, value lists, bytes of a fresh write); Trace_KeyFile accepts a query only if listing and full-dump fingerprint are unchanged since the last setter. In the model queries are UNCHANGED objs by construction (KeyFile.tla); %d query calls validated. Merge as a query, systematically: %d pairs of parsed files (every pair of entry lists of length <= 2 over {group-less,A,B} x {x,y} exported by TLC from MC_Merge, first key of the file / of each section without a value): the extended dump of both inputs is identical before and after econf_mergeFiles; + mixed histories (merges with tag-less option objects as base, writes, listings, extended getter) validated against the root specification with the delimiter / comment tags part of every dump. non-trivial = sequence with a Bool or Int getter." % (len(hists), nq, nmerge),
                "samples": [hists[0].script[:12]], "exhaustive": False,
                "trusted_base": ["TLC 1.8.0", "gcc ASan/UBSan", "drv.c"]}
     rc = verdict.finish()
